@@ -52,7 +52,15 @@ func runC13(c *Ctx) {
 	c.checkSDPSchema()
 	c.checkResultUse("O-3 description used only after its error check", scope, func(call *ssa.Call) bool {
 		if c.Thorough {
-			return true
+			// thorough: every call, anywhere, that yields a *SessionDescription with an error
+			sig := call.Call.Signature()
+			for i := 0; i < sig.Results().Len(); i++ {
+				if pt, ok := sig.Results().At(i).Type().(*types.Pointer); ok {
+					if n, okn := pt.Elem().(*types.Named); okn && n.Obj().Name() == "SessionDescription" {
+						return true
+					}
+				}
+			}
 		}
 		f := staticCallee(call)
 		if f == nil {
